@@ -5,7 +5,7 @@
 //!
 //! Scenario line: {"sid":int,"sc":{n,ctor,ml,mu,pat,op,i,j,s,bkind,bml,bmu,bpat},"initA":[ints],"wsA":[[i,j,v]..],"wsB":[..]}
 //!                (two-operation scenarios add op2, i2, j2, s2, ckind, cml, cmu, cpat to sc and "wsC";
-//!                 sc.pf != 0: A, and B unless it is an Identity, is handed to Matrix::fill(pf) before its writes)
+//!                 sc.pf != 0: A, and B, is handed to Matrix::fill(pf) before its writes)
 //! Trace line:    {"sid","act":"ctorA|prefillA|fillA|ctorB|prefillB|fillB|op|ctorC|fillC|op2","panic":bool,"entries":[[int]],"kind":"I|F|B","ml","mu",
 //!                 "len","data":[int],"val":bool, ("sc": scenario record, on ctorA lines)}
 //! Numbers (entries, data, write values, scalars) are the graded values of spec/matrix/Graded.tla, m * 2^(80 e) with
@@ -244,7 +244,7 @@ fn main() {
                 Ok(m) => { out.line(sid, "ctorB", None, false, Some(&m), n, false, &op); b = m; }
                 Err(_) => { out.line(sid, "ctorB", None, true, None, n, false, &op); }
             }
-            if pf != 0 && st(sc, "bkind") != "I" {
+            if pf != 0 {
                 let p = catch(|| b.fill(decode(pf))).is_err();
                 out.line(sid, "prefillB", None, p, Some(&b), n, false, &op);
             }
